@@ -39,9 +39,35 @@ def run(job):
     except subprocess.TimeoutExpired as e:
         return job, -999, "", "timeout after %ss" % timeout, time.time() - t0
 
+def run_miri():
+    """Stage C (auxiliary, sampled schedules): the std-thread harness under Miri's data-race detector."""
+    seeds = 16 if thorough else 3
+    env = dict(os.environ, CARGO_TARGET_DIR=os.path.join(V, "target", "mirih"), CARGO_NET_OFFLINE="true",
+               MIRIFLAGS="-Zmiri-disable-isolation -Zmiri-ignore-leaks -Zmiri-many-seeds=0..%d" % seeds)
+    t0 = time.time()
+    try:
+        p = subprocess.run(["cargo", "+nightly", "miri", "run", "--offline"], cwd=os.path.join(V, "mirih"), env=env,
+                           capture_output=True, text=True, timeout=1500 if thorough else 240)
+    except subprocess.TimeoutExpired:
+        return {"ran": False, "note": "timeout"}
+    except FileNotFoundError:
+        return {"ran": False, "note": "cargo not found"}
+    out = p.stdout + p.stderr
+    res = {"ran": True, "seeds": seeds, "wall_s": round(time.time() - t0, 1), "ok_runs": out.count("mirih ok")}
+    if "Undefined Behavior" in out or "Data race" in out or "data race" in out:
+        lines = [l for l in out.splitlines() if "Undefined Behavior" in l or "ata race" in l or "-->" in l]
+        res.update(violation=True, message=" | ".join(lines[:6])[:1200])
+    elif "MIRIH:" in out:
+        res.update(violation=True, message=" | ".join(l for l in out.splitlines() if "MIRIH:" in l)[:800])
+    elif p.returncode != 0:
+        res.update(ran=False, note="miri did not run to completion (exit %d): %s" % (p.returncode, out[-300:]))
+    return res
+
 t0 = time.time()
 with ThreadPoolExecutor(max_workers=8) as ex:
+    miri_future = ex.submit(run_miri)
     results = list(ex.map(run, jobs))
+    miri = miri_future.result()
 table, viol, capped = [], [], []
 execs = calls = 0
 for job, rc, out, err, wall in results:
@@ -76,15 +102,24 @@ cov = {
     "bodies": table, "stage_A": "Send + Sync hold for 14 public types (cargo build of /verif/sendsync)",
     "instrumentation": subs,
     "stage_B_vacuous": vac,
+    "stage_C_miri_auxiliary_sampled": miri,
 }
-write_evidence(tier, cov, time.time() - t0, len(viol), ASSUME)
+if miri.get("violation"):
+    viol_count_extra = 1
+else:
+    viol_count_extra = 0
+write_evidence(tier, cov, time.time() - t0, len(viol) + viol_count_extra, ASSUME)
 print("C18 %s: executions=%d engine_calls=%d substituted_sites=%d bodies=%d wall=%.1fs" % (tier, execs, calls, subs["total"], len(table), time.time() - t0))
 if vac:
     print("NOTE: 0 std::sync/std::thread sites were substituted - stage B is vacuous by construction; verdict rests on stage A")
+if miri.get("violation"):
+    viol.append({"body": "stage C (Miri, std threads)", "threads": 3, "preemption_bound": "n/a", "message": miri.get("message", "")})
+if not miri.get("ran"):
+    print("NOTE: stage C (Miri, auxiliary) did not run: %s" % miri.get("note"))
 if viol:
     os.makedirs(os.path.join(V, "violations"), exist_ok=True)
     path = os.path.join(V, "violations", "C18-0.json")
-    json.dump({"property": "C18", "failed_bodies": viol, "replay": "%s run %s %s %s" % (exe, viol[0]["body"], viol[0]["threads"], viol[0]["preemption_bound"])}, open(path, "w"), indent=1)
+    json.dump({"property": "C18", "failed_bodies": viol, "replay": ("%s run %s %s %s" % (exe, viol[0]["body"], viol[0]["threads"], viol[0]["preemption_bound"])) if viol[0]["body"].startswith("B") else "cd /verif/mirih && CARGO_TARGET_DIR=/verif/target/mirih MIRIFLAGS='-Zmiri-disable-isolation -Zmiri-ignore-leaks' cargo +nightly miri run --offline"}, open(path, "w"), indent=1)
     print("VIOLATION property=C18 replay=%s" % path)
     for v in viol:
         print("  body %s threads=%s bound=%s: %s" % (v["body"], v["threads"], v["preemption_bound"], v["message"]))
